@@ -40,8 +40,9 @@ Definition dtype_of_Z (z : Z) : dtype :=
   | 8 => Float16Ieee | 9 => Float32Ieee | _ => Float64Ieee
   end.
 Definition okind_of_Z (z : Z) : okind :=
-  (* 5, 6: a standard axis that is the second / third AXIS_DESCR of a MAP / CUBOID *)
-  match z with 0 => KMeasurement | 1 => KCharacteristic | 2 => KAxisPts | 3 | 5 | 6 => KAxisDescrStd | _ => KTypedefMeasurement end.
+  (* 5, 6: a standard axis that is the second / third AXIS_DESCR of a MAP / CUBOID; 7-9: CHARACTERISTIC of type ASCII, VAL_BLK,
+     CURVE; 10, 11: TYPEDEF_CHARACTERISTIC of type VALUE, ASCII *)
+  match z with 0 => KMeasurement | 1 | 7 | 8 | 9 | 10 | 11 => KCharacteristic | 2 => KAxisPts | 3 | 5 | 6 => KAxisDescrStd | _ => KTypedefMeasurement end.
 Definition conv_of_Z (k : Z) (cs : list Z) : conv :=
   let f i := float_of_bits (nth i cs 0) in
   match k with
